@@ -387,22 +387,22 @@ def shrink_case(root, pid, case_text, name, budget=150):
 # ------------------------------------------------------------------------------------------------ property table
 # profile mix, number of generated cases (quick, thorough), the monitors that speak for the property
 PROPS = {
-    'C01': dict(profiles=['valid', 'valid', 'hostile', 'faults'], n=(3000, 120000)),
-    'C02': dict(profiles=['valid', 'hostile', 'faults'], n=(3000, 120000)),
-    'C03': dict(profiles=['valid', 'hostile', 'faults', 'faults_hostile'], n=(3000, 120000)),
-    'C05': dict(profiles=['faults', 'faults_hostile'], n=(3000, 120000)),
-    'C06': dict(profiles=['hostile', 'faults_hostile'], n=(3000, 100000)),
+    'C01': dict(profiles=['valid', 'valid', 'hostile', 'faults'], n=(3000, 120000), large=['large']),
+    'C02': dict(profiles=['valid', 'hostile', 'faults'], n=(3000, 120000), large=['large']),
+    'C03': dict(profiles=['valid', 'hostile', 'faults', 'faults_hostile'], n=(3000, 120000), large=['large', 'large_faults']),
+    'C05': dict(profiles=['faults', 'faults_hostile'], n=(3000, 120000), large=['large_faults']),
+    'C06': dict(profiles=['hostile', 'faults_hostile'], n=(3000, 100000), large=['large', 'large_faults']),
     'C07': dict(profiles=['hostile', 'hostile', 'valid'], n=(3000, 100000)),
-    'C08': dict(profiles=['valid', 'hostile'], n=(2000, 80000)),
-    'C09': dict(profiles=['valid', 'hostile', 'faults'], n=(3000, 90000)),
-    'C10': dict(profiles=['valid', 'hostile', 'faults'], n=(2000, 80000)),
-    'C11': dict(profiles=['valid', 'hostile', 'faults'], n=(3000, 90000)),
-    'C12': dict(profiles=['valid', 'hostile', 'faults'], n=(3000, 90000)),
-    'C13': dict(profiles=['valid', 'hostile', 'faults'], n=(2000, 80000)),
+    'C08': dict(profiles=['valid', 'hostile'], n=(2000, 80000), large=['large']),
+    'C09': dict(profiles=['valid', 'hostile', 'faults'], n=(3000, 90000), large=['large']),
+    'C10': dict(profiles=['valid', 'hostile', 'faults'], n=(2000, 80000), large=['large']),
+    'C11': dict(profiles=['valid', 'hostile', 'faults'], n=(3000, 90000), large=['large']),
+    'C12': dict(profiles=['valid', 'hostile', 'faults'], n=(3000, 90000), large=['large']),
+    'C13': dict(profiles=['valid', 'hostile', 'faults'], n=(2000, 80000), large=['large']),
     'C15': dict(profiles=['valid', 'hostile', 'faults'], n=(1500, 60000)),
     'C17': dict(profiles=['valid', 'hostile'], n=(1500, 60000)),
     'C18': dict(profiles=['hostile', 'faults'], n=(3000, 100000)),
-    'C20': dict(profiles=['valid', 'hostile', 'faults'], n=(1500, 60000)),
+    'C20': dict(profiles=['valid', 'hostile', 'faults'], n=(1500, 60000), large=['large']),
 }
 
 class Result:
@@ -722,6 +722,10 @@ def decide(root, pid, tier, seed, replay=None):
                     done += c; start += c
                     if len(res.violations) >= 5:
                         break
+            # texts and capacities of a page or more (few operations each): thresholds a change may hide behind
+            for li, prof in enumerate(cfg.get('large', [])):
+                nl = (240 if tier == 'quick' else 6000) // len(cfg['large'])
+                explore(root, pid, res, gen_text(root, seed * 1000 + 70 + li, nl, prof, 8 * 10 ** 6 + li * 10 ** 5), '%s_s%d' % (prof, seed), stats)
     if pid == 'C12' and not replay and st['harness']['ok']:
         # (without a model — e.g. the translator rejected the source — the loops are still checked against the property's bounds)
         push_loops(root, pid, res, tier, stats, with_model=st['model']['ok'])
@@ -741,6 +745,9 @@ def decide(root, pid, tier, seed, replay=None):
         for extra in range(3):
             for pi, prof in enumerate(cfg['profiles']):
                 explore(root, pid, res, gen_text(root, (seed + 7919 * (extra + 1)) * 1000 + pi, 3000, prof, 10 ** 6 * (extra + 1)), 'search%d_%s' % (extra, prof), stats)
+            for li, prof in enumerate(cfg.get('large', [])):
+                explore(root, pid, res, gen_text(root, (seed + 7919 * (extra + 1)) * 1000 + 70 + li, 1500, prof, 10 ** 6 * (extra + 1) + 5 * 10 ** 5 + li * 10 ** 5),
+                        'search%d_%s' % (extra, prof), stats)
             if res.violations:
                 break
     # ---- still nothing concrete: the same inputs through an UNOPTIMISED build of the runner (debug assertions and
